@@ -12,7 +12,8 @@ From WP Require Import Model.Cbor Model.BigEndian Model.Http Model.Url Model.Mic
                        Model.CertChain Model.Sxg.
 From WP Require Import Spec.Mice Spec.SxgPolicy.
 From WP Require Spec.StructHdr Proofs.SHRoundtrip Proofs.SHParse.
-From WP Require Import Proofs.BaseLemmas Proofs.MiceCommit Proofs.SxgVerifyMsg.
+From WP Require Import Proofs.BaseLemmas Proofs.HdrCi Proofs.MiceCommit Proofs.SxgVerifyMsg.
+From WP Require Proofs.SxgLoop.
 Open Scope N_scope.
 
 (* ---- time -------------------------------------------------------------------- *)
@@ -75,15 +76,17 @@ Proof.
 Qed.
 
 (* ---- small facts about headers ------------------------------------------------- *)
+Lemma hraw_names (h : headers) : map fst (hraw h) = map lname h.
+Proof. unfold hraw. rewrite map_map. reflexivity. Qed.
+
+(* on a map that can be signed (names distinct up to letter case) a non-empty
+   case-insensitive value is the signed (lower-cased name, joined value) entry *)
 Lemma hdr_value_in (h : headers) (k : bytes) :
-  hdr_value h k <> [] -> In (lower (canonical_key k), hdr_value h k) (hraw h).
+  NoDup (map fst (hraw h)) ->
+  hdr_value_ci h k <> [] -> In (lower (canonical_key k), hdr_value_ci h k) (hraw h).
 Proof.
-  unfold hdr_value, hdr_values. generalize (canonical_key k) as ck. intros ck.
-  induction h as [|[k' vs] t IH]; cbn [hdr_lookup hraw map fst snd].
-  - intros H. contradiction H. reflexivity.
-  - destruct (bytes_eqb k' ck) eqn:E.
-    + apply bytes_eqb_eq in E. subst k'. intros _. left. reflexivity.
-    + intros H. right. apply IH. exact H.
+  intros Hnd Hne. rewrite hraw_names in Hnd. rewrite SxgLoop.lower_canonical_key.
+  exact (hdr_value_ci_in h k Hnd Hne).
 Qed.
 
 Lemma integrity_of_eq v : integrity_identifier (mice_of v) = integrity_of v.
@@ -199,7 +202,7 @@ Section Sound.
   Proof.
     unfold verify_payload, SxgPolicy.PayloadOk.
     rewrite integrity_of_eq, digest_field_of_eq, mice_draft_of_eq.
-    set (dg := hdr_value (e_resph e) (digest_field_of (e_ver e))).
+    set (dg := hdr_value_ci (e_resph e) (digest_field_of (e_ver e))).
     destruct (bytes_eqb (s_integrity s) (integrity_of (e_ver e))) eqn:Ei; cbn [negb].
     - apply bytes_eqb_eq in Ei. destruct dg as [|c dg0] eqn:Edg.
       + split; [discriminate|]. intros (_ & H & _). contradiction H. reflexivity.
@@ -216,7 +219,7 @@ Section Sound.
     vsig e tsec tnsec s = Some p <->
     KeySigned e s /\
     verify_timestamps (s_date s) (s_expires s) tsec tnsec = true /\
-    (has_request (e_ver e) = false -> hdr_value (e_resph e) (s2b "Content-Type") <> []) /\
+    (has_request (e_ver e) = false -> hdr_value_ci (e_resph e) (s2b "Content-Type") <> []) /\
     PayloadOk e s p.
   Proof.
     rewrite <- verify_payload_iff. unfold verify_signature, SxgPolicy.KeySigned. split.
@@ -232,13 +235,13 @@ Section Sound.
       destruct (has_request (e_ver e)) eqn:Er; cbn [negb andb].
       + intros Hp. split; [|split; [reflexivity|split; [discriminate|exact Hp]]].
         exists cb, main, rest, kid, msg. rewrite Eh. repeat split; assumption.
-      + destruct (hdr_value (e_resph e) (s2b "Content-Type")) as [|c0 ct] eqn:Ect; try discriminate.
+      + destruct (hdr_value_ci (e_resph e) (s2b "Content-Type")) as [|c0 ct] eqn:Ect; try discriminate.
         intros Hp. split; [|split; [reflexivity|split; [discriminate|exact Hp]]].
         exists cb, main, rest, kid, msg. rewrite Eh. repeat split; assumption.
     - intros ((cb & main & rest & kid & msg & Ef & Ec & Ek & Eh & Em & Es) & Et & Hct & Hp).
       rewrite Ef, Ec, Ek, Et. cbn [negb]. rewrite <- Eh, Em, bytes_eqb_refl, Es. cbn [negb].
       destruct (has_request (e_ver e)) eqn:Er; cbn [negb andb]; [exact Hp|].
-      destruct (hdr_value (e_resph e) (s2b "Content-Type")) as [|c0 ct] eqn:Ect; [|exact Hp].
+      destruct (hdr_value_ci (e_resph e) (s2b "Content-Type")) as [|c0 ct] eqn:Ect; [|exact Hp].
       contradiction (Hct eq_refl). reflexivity.
   Qed.
 
@@ -345,16 +348,17 @@ Section Sound.
         forall recs, Commits H256 top recs -> p = List.concat recs \/ Collision H256.
 
     Lemma payload_ok_bound (e : exchange) (s : signature) (p : bytes) :
-      PayloadOk e s p -> payload_bound e s p.
+      sf_map (sig_fields e s) -> PayloadOk e s p -> payload_bound e s p.
     Proof.
-      intros (_ & Hne & Hd). unfold payload_bound.
-      set (dg := hdr_value (e_resph e) (digest_field_of (e_ver e))) in *.
+      intros [_ Hnd] (_ & Hne & Hd). unfold payload_bound.
+      unfold sig_fields, fields_of in Hnd. cbn [f_resp] in Hnd.
+      set (dg := hdr_value_ci (e_resph e) (digest_field_of (e_ver e))) in *.
       assert (Ht : exists top, parse_digest_header (mice_draft_of (e_ver e)) dg = Ok top).
       { unfold decode_all, new_decoder in Hd.
         destruct (parse_digest_header (mice_draft_of (e_ver e)) dg) as [top| | |]; try discriminate.
         exists top. reflexivity. }
       destruct Ht as (top & Ht). exists dg, top. split; [|split; [exact Ht|]].
-      - unfold sig_fields, fields_of. cbn [f_resp]. apply hdr_value_in. exact Hne.
+      - unfold sig_fields, fields_of. cbn [f_resp]. apply hdr_value_in; [exact Hnd|exact Hne].
       - intros recs Hc.
         destruct (decode_all_only_committed H256 _ _ _ _ _ _ _ _ _ Ht Hc Hd) as [[_ Heof]|Hcol];
           [left; apply Heof; reflexivity|right; exact Hcol].
@@ -394,7 +398,9 @@ Section Sound.
       - destruct (signed_message_injective e e _ _ _ _ _ _ _ _ m Hs Hs Hpo Hpo Hm Hm) as (_ & Q & _).
         exact Q.
       - apply verify_timestamps_spec; assumption.
-      - apply payload_ok_bound. apply verify_payload_iff. exact Hpl.
+      - apply payload_ok_bound; [|apply verify_payload_iff; exact Hpl].
+        destruct (signed_message_injective e e _ _ _ _ _ _ _ _ m Hs Hs Hpo Hpo Hm Hm) as (_ & Q & _).
+        exact Q.
     Qed.
 
     (* Corollary: the key holder signed only m0, the message of exchange e.  Then
